@@ -205,6 +205,12 @@ def loader_sections(ctx):
         if isinstance(n, ast.For) and isinstance(n.target, ast.Name):
             loopvar = n.target.id
             facts['loop_over'] = U(n.iter)
+    # the key under which a file's list is stored: grammar[<key>] = [] (the key through a local `name` or written out)
+    gp = params(mf)[0] if params(mf) else 'grammar'
+    for st in walk_stmts(mf.body):
+        if isinstance(st, ast.Assign) and len(st.targets) == 1 and isinstance(st.targets[0], ast.Subscript) \
+                and U(st.targets[0].value) == gp and U(st.value) == '[]':
+            facts['name'] = U(expand(mf, st.targets[0].slice, stores))
     fixed = {}
     cur_path = None
     for st in walk_stmts(fn.body):
@@ -316,7 +322,10 @@ def r1_tag_chain(ctx, rule, scope='all'):
         if prob:
             ok_all = False
             for p_ in prob:
-                ctx.bad(rule, site, 'chain %s: %s' % (letter, p_),
+                # a problem on the loading side is a statement about _load_terminals (so that a refactoring of the loader the
+                # analysis cannot follow degrades to "not decided" there, not to a violation blamed on the trainer)
+                psite = GIO + '_load_terminals' if ('guesser does not load' in p_ or 'is loaded only under' in p_) else site
+                ctx.bad(rule, psite, 'chain %s: %s' % (letter, p_),
                         'a segment the trainer labels %s must be counted, written, listed in config.ini and loaded under '
                         'the same name; otherwise training passwords with such a segment are not reproduced' % letter,
                         {'row': row}, None)
